@@ -252,7 +252,25 @@ def judge(out, events, fails, prefix=""):
                             "driver": e.get("driver"), "T": e.get("T"), "I": e.get("I")})
 
 
-def edited_events(ns, seeds, n_edits, theorems=(), **gen_kw):
+def simulate_and_toggle(ns, live, model, rng):
+    """a what-if simulation of one input at the first modelled hour, switched on and off again (must leave no trace)"""
+    from . import simcheck
+    lo, _hi, _last = simcheck.period(ns, live, model)
+    if lo is None:
+        return False
+    cands = [(n, a) for n in sorted(efx.reachable(model)) for a in model[n]["inp"]]
+    n, a = rng.choice(cands)
+    old = getattr(live[n], a)
+    try:
+        sim = ns.ModelingUpdate([[old, ns.SourceValue(old.value * 2)]], lo.to_pydatetime())
+        sim.set_updated_values()
+        sim.reset_values()
+        return True
+    except Exception:   # noqa: refused simulations are C05 / C06's subject
+        return False
+
+
+def edited_events(ns, seeds, n_edits, theorems=(), kinds=None, simulate=False, **gen_kw):
     """lattice systems, built then edited in place: one Model event after each edit (observed on the live system)"""
     events = []
     for tid, seed in enumerate(seeds, start=1):
@@ -264,7 +282,9 @@ def edited_events(ns, seeds, n_edits, theorems=(), **gen_kw):
         if ev["raised"] != "none":
             continue
         for k in range(1, n_edits + 1):
-            edit, I2 = lattice.lattice_edit(rng, model, I)
+            if simulate and simulate_and_toggle(ns, live, model, rng):
+                SKIPPED["simulations"] = SKIPPED.get("simulations", 0) + 1
+            edit, I2 = (lattice.lattice_edit(rng, model, I, kinds) if kinds else lattice.lattice_edit(rng, model, I))
 
             def do(edit=edit, model=model):
                 efx.apply_edit_live(ns, model, live, edit)
